@@ -2,6 +2,7 @@ import VlsModel.Lemmas.KVV
 import VlsModel.Gen.FnKvv
 import VlsModel.Gen.FnCloud
 import VlsModel.Gen.FnRedbVv
+import VlsModel.Gen.FnKvvMem
 import VlsModel.Gen.FnKvvTrait
 import VlsModel.Gen.FnPersistMod
 import VlsModel.Lemmas.FnGen
@@ -763,5 +764,38 @@ theorem C16_fn_kvvstore_default_commit {S : Type} (s : S) : Gen.FnKvvTrait.KVVSt
 theorem C16_fn_persist_default_enter {S : Type} (s : S) : Gen.FnPersistMod.Persist.enter s = .ok () := rfl
 theorem C16_fn_persist_default_prepare {S : Type} (s : S) : Gen.FnPersistMod.Persist.prepare s = [] := rfl
 theorem C16_fn_persist_default_commit {S : Type} (s : S) : Gen.FnPersistMod.Persist.commit s = .ok () := rfl
+
+/-! ### `KVVPersister` (the adapter `Persist for KVVPersister<S, F>`): the transaction methods are the store's
+
+`put_batch_unlogged` (cloud → local replication) hands the store exactly the received mutation list, entry by entry, in
+order (`Mutations` → `Vec<KVV>` is the identity on the records); `enter` / `prepare` / `commit` / `clear_database` /
+`signer_id` are the store's own.  The store `S` is opaque: its methods are the explicit parameters. -/
+
+theorem C16_fn_kvvpersister_put_batch_unlogged {S F : Type} (ext : S → List (String × (Nat × List Nat)) → Rs.M Unit)
+    (self : S × F) (muts : List (String × (Nat × List Nat))) :
+    Gen.FnKvvTrait.KVVPersister.put_batch_unlogged ext self muts = ext self.1 muts := by
+  simp only [Gen.FnKvvTrait.KVVPersister.put_batch_unlogged]
+  congr 1
+  induction muts with
+  | nil => rfl
+  | cons r rs ih => obtain ⟨k, v, x⟩ := r; simp [List.map_cons] at ih ⊢
+
+theorem C16_fn_kvvpersister_enter {S F : Type} (ext : S → Rs.M Unit) (self : S × F) :
+    Gen.FnKvvTrait.KVVPersister.enter ext self = ext self.1 := rfl
+theorem C16_fn_kvvpersister_prepare {S F : Type} (ext : S → List (String × (Nat × List Nat))) (self : S × F) :
+    Gen.FnKvvTrait.KVVPersister.prepare ext self = ext self.1 := rfl
+theorem C16_fn_kvvpersister_commit {S F : Type} (ext : S → Rs.M Unit) (self : S × F) :
+    Gen.FnKvvTrait.KVVPersister.commit ext self = ext self.1 := rfl
+theorem C16_fn_kvvpersister_clear_database {S F : Type} (ext : S → Rs.M Unit) (self : S × F) :
+    Gen.FnKvvTrait.KVVPersister.clear_database ext self = ext self.1 := rfl
+theorem C16_fn_kvvpersister_signer_id {S F Sid : Type} (ext : S → Sid) (self : S × F) :
+    Gen.FnKvvTrait.KVVPersister.signer_id ext self = ext self.1 := rfl
+
+/-- `MemoryKVVStore::clear_database`: never fails and leaves the empty map — every key, whatever its version was, reads
+    as absent afterwards (the only operation of the store that lowers versions; outside the request alphabet of the
+    property, like `reset_versions`) -/
+theorem C16_fn_mem_clear_database (s : Gen.FnKvvMem.MemoryKVVStore) :
+    s.clear_database = .ok { s with data := [] } ∧ ∀ k, Rs.smapGet ({ s with data := [] } : Gen.FnKvvMem.MemoryKVVStore).data k = none := by
+  exact ⟨rfl, fun k => rfl⟩
 
 end VlsModel.Props.C16Fn
